@@ -114,6 +114,7 @@ class Stats:
 class Check:
     """Base class of a registered check (one per property)."""
     id = None
+    parts = None                  # composite check: ids of the part checks run one after the other
     level = 'exploration'
     world = ''
     real_components = []
@@ -187,7 +188,9 @@ def safe_execute(check, scenario):
 
 def _run_chunk(cid, seed, tier, indices):
     check = get_check(cid)
-    faulthandler.dump_traceback_later(check.run_timeout * len(indices) + 60, exit=True)
+    fleet = getattr(check, 'mode', 'pool') == 'fleet'
+    if not fleet:
+        faulthandler.dump_traceback_later(check.run_timeout * len(indices) + 60, exit=True)
     out = []
     try:
         _ensure_init(check, tier)
@@ -202,7 +205,8 @@ def _run_chunk(cid, seed, tier, indices):
             res = safe_execute(check, scenario)
             out.append((idx, scenario, res))
     finally:
-        faulthandler.cancel_dump_traceback_later()
+        if not fleet:
+            faulthandler.cancel_dump_traceback_later()
     return out
 
 
@@ -212,12 +216,19 @@ def _exec_scenarios(cid, tier, scenarios):
     return [safe_execute(check, s) for s in scenarios]
 
 
-def _pool(workers):
+def _pool(workers, check=None):
+    if check is not None and getattr(check, 'mode', 'pool') == 'fleet':
+        # World P: runs execute in forked children of the fleet's worker interpreters; the driver
+        # only needs concurrency to keep them busy
+        return cf.ThreadPoolExecutor(max_workers=workers)
     ctx = multiprocessing.get_context('fork')
     return cf.ProcessPoolExecutor(max_workers=workers, mp_context=ctx)
 
 
 def _kill_pool(pool):
+    if isinstance(pool, cf.ThreadPoolExecutor):
+        pool.shutdown(wait=False, cancel_futures=True)
+        return
     for proc in list(getattr(pool, '_processes', {}).values()):
         try:
             proc.kill()
@@ -247,7 +258,7 @@ def known_signature(findings, cid, signature):
 # ---------------------------------------------------------------------------
 # minimiser
 
-def minimise(check, scenario, first, execute, budget=250, wall=90.0):
+def minimise(check, scenario, first, execute, budget=250, wall=120.0):
     """ddmin over the scenario's op lists, then per-op simplification.
 
     A candidate is accepted only if the same invariant fails again.
@@ -312,11 +323,11 @@ def versions():
     return out
 
 
-def write_replay(check, seed, idx, scenario, res, tier):
-    rdir = os.path.join(VERIF_ROOT, 'replays', check.id)
+def write_replay(check, seed, idx, scenario, res, tier, property_id=None):
+    rdir = os.path.join(VERIF_ROOT, 'replays', property_id or check.id)
     os.makedirs(rdir, exist_ok=True)
     path = os.path.join(rdir, '%d-%d.json' % (seed, idx))
-    doc = {'property': check.id, 'invariant': res['invariant'], 'signature': res.get('signature'),
+    doc = {'property': check.id, 'claims': property_id or check.id, 'invariant': res['invariant'], 'signature': res.get('signature'),
            'seed': seed, 'run': idx, 'tier': tier, 'world': check.world, 'scenario': scenario,
            'expected': res.get('expected'), 'actual': res.get('actual'), 'detail': res.get('detail'),
            'events_tail': res.get('events_tail'), 'versions': versions()}
@@ -326,7 +337,56 @@ def write_replay(check, seed, idx, scenario, res, tier):
 
 
 def run_check(cid, tier, seed, out=sys.stdout):
+    """Run a registered check (or, for a composite, its parts) and write evidence/<property>.json."""
     check = get_check(cid)
+    parts = getattr(check, 'parts', None)
+    if not parts:
+        code, evidence = run_single(cid, tier, seed, out)
+        write_evidence(evidence)
+        return code
+    codes = []
+    evs = []
+    for part in parts:
+        code, ev = run_single(part, tier, seed, out, property_id=cid)
+        codes.append(code)
+        evs.append(ev)
+    merged = dict(evs[0])
+    cov = dict(evs[0]['coverage'])
+    cov['parts'] = {part: ev['coverage'] for part, ev in zip(parts, evs)}
+    for key in ('evaluations', 'distinct_nontrivial', 'runs', 'runs_requested', 'distinct_scenarios', 'distinct_states'):
+        cov[key] = sum(ev['coverage'].get(key, 0) for ev in evs)
+    cov['samples'] = [smp for ev in evs for smp in ev['coverage']['samples'][:2]]
+    cov['rule'] = ' || '.join('[%s] %s' % (part, ev['coverage']['rule']) for part, ev in zip(parts, evs))
+    for key in ('faults_fired', 'probes', 'counters', 'known_findings_hit'):
+        tot = collections.Counter()
+        for ev in evs:
+            tot.update(ev['coverage'].get(key, {}))
+        cov[key] = dict(sorted(tot.items()))
+    cov['probes_at_zero'] = sorted(set(p for ev in evs for p in ev['coverage'].get('probes_at_zero', [])))
+    cov['real_components'] = sorted(set(c for ev in evs for c in ev['coverage'].get('real_components', [])))
+    cov['stub_components'] = sorted(set(c for ev in evs for c in ev['coverage'].get('stub_components', [])))
+    cov['determinism'] = {k: sum(ev['coverage']['determinism'][k] for ev in evs) for k in ('seeds_rerun', 'mismatches')}
+    merged['coverage'] = cov
+    merged['assumptions'] = sorted(set(a for ev in evs for a in ev.get('assumptions', [])))
+    merged['wall_s'] = round(sum(ev['wall_s'] for ev in evs), 2)
+    merged['violations'] = sum(ev['violations'] for ev in evs)
+    write_evidence(merged)
+    if 1 in codes:
+        return 1
+    return max(codes)
+
+
+def write_evidence(evidence):
+    edir = os.path.join(VERIF_ROOT, 'evidence')
+    os.makedirs(edir, exist_ok=True)
+    with open(os.path.join(edir, '%s.json' % evidence['property_id']), 'w') as handle:
+        json.dump(evidence, handle, indent=1, default=_default)
+        handle.write('\n')
+
+
+def run_single(cid, tier, seed, out=sys.stdout, property_id=None):
+    check = get_check(cid)
+    property_id = property_id or cid
     t0 = time.time()
     bud = check.budgets(tier)
     runs = int(os.environ.get('VERIF_RUNS', bud['runs']))
@@ -340,7 +400,7 @@ def run_check(cid, tier, seed, out=sys.stdout):
     results = {}
     harness = []
     timed_out = False
-    pool = _pool(workers)
+    pool = _pool(workers, check)
     try:
         futs = {pool.submit(_run_chunk, cid, seed, tier, ch): ch for ch in chunks}
         deadline = t0 + wall_cap
@@ -373,6 +433,7 @@ def run_check(cid, tier, seed, out=sys.stdout):
     violations = []
     known_hits = collections.Counter()
     log_digest = hashlib.sha256()
+    inconclusive = []
     for idx in sorted(results):
         scen, res = results[idx]
         st = res.get('stats') or {}
@@ -389,12 +450,15 @@ def run_check(cid, tier, seed, out=sys.stdout):
                 samples.append({'run': idx, 'scenario': check.describe(scen), 'verdict': res['verdict']})
         log_digest.update(('%d:%s:%s;' % (idx, res['verdict'], res.get('digest'))).encode())
         if res['verdict'] == VIOLATION:
-            entry = known_signature(findings, cid, res.get('signature'))
+            entry = known_signature(findings, property_id, res.get('signature'))
             if entry is not None:
                 known_hits[entry['signature']] += 1
             else:
                 violations.append(idx)
-        elif res['verdict'] in (HARNESS_ERROR, HARNESS_TIMEOUT):
+        elif res['verdict'] == HARNESS_TIMEOUT:
+            # a run that did not answer within its budget is inconclusive, not a pass and not a violation
+            inconclusive.append(idx)
+        elif res['verdict'] == HARNESS_ERROR:
             harness.append('run %d: %s %s' % (idx, res['invariant'], (res.get('detail') or '')[-1500:]))
 
     # ------------------------------------------------------------ determinism self-test
@@ -403,7 +467,9 @@ def run_check(cid, tier, seed, out=sys.stdout):
     if ndet and results and not timed_out and not harness:
         pick_rng = sub_rng(seed, cid, 'determinism')
         sample_idx = sorted(pick_rng.sample(sorted(results), min(ndet, len(results))))
-        pool2 = _pool(max(1, workers // 2 - 1) or 1)
+        if getattr(check, 'mode', 'pool') == 'fleet':
+            check.fresh_workers()
+        pool2 = _pool(max(1, workers // 2 - 1) or 1, check)
         try:
             futs2 = [pool2.submit(_run_chunk, cid, seed, tier, [i]) for i in sample_idx]
             for fut in futs2:
@@ -424,7 +490,7 @@ def run_check(cid, tier, seed, out=sys.stdout):
     replay_paths = []
     reported = {}
     if violations:
-        pool3 = _pool(1)
+        pool3 = _pool(1, check)
         try:
             def execute(scen):
                 return pool3.submit(_exec_scenarios, cid, tier, [scen]).result(timeout=check.run_timeout * 2)[0]
@@ -445,10 +511,10 @@ def run_check(cid, tier, seed, out=sys.stdout):
                 except Exception as err:
                     harness.append('minimiser failed on run %d: %r' % (idx, err))
                     small, res_small = scen, res
-                path = write_replay(check, seed, idx, small, res_small, tier)
+                path = write_replay(check, seed, idx, small, res_small, tier, property_id)
                 reported[key] = {'count': 1, 'path': path}
                 replay_paths.append(path)
-                print('VIOLATION property=%s replay=%s' % (cid, path), file=out)
+                print('VIOLATION property=%s replay=%s' % (property_id, path), file=out)
                 print('  invariant=%s signature=%s' % (res_small['invariant'], res_small.get('signature')), file=out)
                 print('  expected=%s' % (json.dumps(res_small.get('expected'), default=_default)[:600],), file=out)
                 print('  actual=%s' % (json.dumps(res_small.get('actual'), default=_default)[:600],), file=out)
@@ -456,9 +522,9 @@ def run_check(cid, tier, seed, out=sys.stdout):
             pool3.shutdown()
 
     for entry in findings.get('findings', []):
-        if entry['property'] == cid and known_hits.get(entry['signature']):
+        if entry['property'] == property_id and known_hits.get(entry['signature']):
             print('KNOWN-FINDING: property=%s %s (signature=%s, hit %d times)' % (
-                cid, entry['what'], entry['signature'], known_hits[entry['signature']]), file=out)
+                property_id, entry['what'], entry['signature'], known_hits[entry['signature']]), file=out)
 
     wall = time.time() - t0
     missing_probes = [p for p in check.probes_expected if not agg.probes.get(p)]
@@ -488,32 +554,32 @@ def run_check(cid, tier, seed, out=sys.stdout):
         'workers': workers,
         'exhaustive': False,
         'harness_problems': harness[:10],
+        'inconclusive_runs': inconclusive[:50],
         'timed_out': timed_out,
     }
-    evidence = {'property_id': cid, 'tier': tier, 'seed': seed, 'level': check.level,
+    evidence = {'property_id': property_id, 'tier': tier, 'seed': seed, 'level': check.level,
                 'coverage': coverage, 'assumptions': check.assumptions, 'wall_s': round(wall, 2),
                 'violations': len(violations)}
-    edir = os.path.join(VERIF_ROOT, 'evidence')
-    os.makedirs(edir, exist_ok=True)
-    with open(os.path.join(edir, '%s.json' % cid), 'w') as handle:
-        json.dump(evidence, handle, indent=1, default=_default)
-        handle.write('\n')
 
     print('SUMMARY check=%s runs=%d executions=%d distinct_nontrivial=%d states=%d violations=%d known=%d '
           'harness=%d wall=%.1fs' % (cid, len(results), agg.execs, len(nontrivial_digests), len(agg.states),
                                      len(violations), sum(known_hits.values()), len(harness), wall), file=out)
     print('FAULTS %s' % json.dumps(dict(sorted(agg.faults.items()))), file=out)
     print('PROBES %s' % json.dumps(dict(sorted(agg.probes.items()))), file=out)
+    if inconclusive:
+        print('INCONCLUSIVE %d run(s) gave no answer within the per-run budget: %s' % (len(inconclusive), inconclusive[:20]), file=out)
+        if len(inconclusive) > max(3, len(results) // 40):
+            harness.append('too many inconclusive runs: %d of %d' % (len(inconclusive), len(results)))
     if violations:
-        return 1
+        return 1, evidence
     if harness or timed_out:
         for line in harness[:10]:
             print('HARNESS-ERROR %s' % line, file=out)
         if timed_out:
             print('HARNESS-TIMEOUT wall cap %.0fs reached with %d of %d runs done' % (wall_cap, len(results), runs),
                   file=out)
-        return 3
-    return 0
+        return 3, evidence
+    return 0, evidence
 
 
 def replay(path, out=sys.stdout):
@@ -521,9 +587,10 @@ def replay(path, out=sys.stdout):
         doc = json.load(handle)
     cid = doc['property']
     check = get_check(cid)
+    claims = doc.get('claims', cid)
     tier = doc.get('tier', 'quick')
     print('REPLAY property=%s invariant=%s seed=%s run=%s' % (cid, doc['invariant'], doc['seed'], doc['run']), file=out)
-    pool = _pool(1)
+    pool = _pool(1, check)
     try:
         res = pool.submit(_exec_scenarios, cid, tier, [doc['scenario']]).result(timeout=check.run_timeout * 2 + 120)[0]
     finally:
@@ -535,9 +602,9 @@ def replay(path, out=sys.stdout):
         same = (json.dumps(res.get('actual'), default=_default, sort_keys=True)
                 == json.dumps(doc.get('actual'), default=_default, sort_keys=True))
         findings = load_findings()
-        if known_signature(findings, cid, res.get('signature')):
-            print('KNOWN-FINDING: property=%s signature=%s' % (cid, res.get('signature')), file=out)
-        print('VIOLATION property=%s replay=%s%s' % (cid, path, '' if same else ' (values differ from recording)'), file=out)
+        if known_signature(findings, claims, res.get('signature')):
+            print('KNOWN-FINDING: property=%s signature=%s' % (claims, res.get('signature')), file=out)
+        print('VIOLATION property=%s replay=%s%s' % (claims, path, '' if same else ' (values differ from recording)'), file=out)
         return 1
     if res['verdict'] in (HARNESS_ERROR, HARNESS_TIMEOUT):
         print('HARNESS-ERROR %s' % (res.get('detail'),), file=out)
